@@ -878,6 +878,7 @@ type knownFinding struct {
 
 func main() {
 	tier := flag.String("tier", "quick", "")
+	_ = flag.Int("j", 16, "accepted for uniformity with the other engines (obfmc is single-process)")
 	evidence := flag.String("evidence", "", "")
 	replayDir := flag.String("replaydir", "replay", "")
 	replay := flag.String("replay", "", "")
